@@ -207,7 +207,8 @@ Inductive pst :=
   | SV1Wait (h : hdr) (v : v1st)
   | SV1Line (h : hdr) (v : v1st) (acc : list xnum)
   | SDone (o : tsobj)
-  | SErr (c : eclass).
+  | SErr (c : eclass)
+  | SLate (c : eclass).       (* refused with class c, but only after the next token has been read (next_token(F_NONE)) *)
 
 Definition flags_of (s : pst) : flags :=
   match s with
@@ -303,7 +304,7 @@ Definition network_data (h : hdr) : pst :=
   else if h_nfreq h <? 0 then err
   else if (p =? 2) && match h_order h with None => true | Some _ => false end then err
   else if negb (p =? 2) && match h_order h with None => false | Some _ => true end then err
-  else if int_max_sqrt <? p then SErr EINVAL               (* vnadata_init refuses rows * columns > INT_MAX *)
+  else if int_max_sqrt <? p then SLate EINVAL              (* vnadata_init refuses rows * columns > INT_MAX: called after the next token *)
   else
     let n := Z.to_nat p in
     let pairs := match h_matrix h with MFull => (n * n)%nat | _ => (n * (n + 1) / 2)%nat end in
@@ -469,7 +470,7 @@ Definition on_tok (s : pst) (t : token) : pst :=
       end
   | SOptR h =>
       match t with
-      | TDouble x => if xle x xq0 then err else SOpt (set_z0 h x)
+      | TDouble x => if negb (xlt xq0 x) then err else SOpt (set_z0 h x)      (* !(x > 0.0): fix DB93 *)
       | _ => err
       end
   | SBody h => body_tok h t
@@ -477,7 +478,7 @@ Definition on_tok (s : pst) (t : token) : pst :=
   | SRef h nleft acc =>
       match nleft, t with
       | S k, TDouble x =>
-          if xle x xq0 then err
+          if negb (xlt xq0 x) then err
           else match k with
                | O => SBody (set_ref h (Some (rev (x :: acc))))
                | _ => SRef h k (x :: acc)
@@ -492,6 +493,7 @@ Definition on_tok (s : pst) (t : token) : pst :=
   | SV1Line h v acc => v1_line_tok h v acc t
   | SDone o => SDone o
   | SErr c => SErr c
+  | SLate c => match t with TError => err | _ => SErr c end     (* the scan of that token failed: EBADMSG *)
   end.
 
 Definition pstep (s : pst) (x : rtok) : pst :=
